@@ -34,21 +34,21 @@ HSIM_RW(1) HSIM_RW(2) HSIM_RW(4) HSIM_RW(8) HSIM_RW(16)
 
 // atomics: really performed (sequentially consistent), each one a preemption point
 #define HSIM_ATOMIC(BITS, T) \
-  T __tsan_atomic##BITS##_load(const volatile T * a, int) { hsim_yield(const_cast<const T *>(a), 0); return __atomic_load_n(a, __ATOMIC_SEQ_CST); } \
-  void __tsan_atomic##BITS##_store(volatile T * a, T v, int) { hsim_yield(const_cast<T *>(a), 1); __atomic_store_n(a, v, __ATOMIC_SEQ_CST); } \
-  T __tsan_atomic##BITS##_exchange(volatile T * a, T v, int) { hsim_yield(const_cast<T *>(a), 1); return __atomic_exchange_n(a, v, __ATOMIC_SEQ_CST); } \
-  T __tsan_atomic##BITS##_fetch_add(volatile T * a, T v, int) { hsim_yield(const_cast<T *>(a), 1); return __atomic_fetch_add(a, v, __ATOMIC_SEQ_CST); } \
-  T __tsan_atomic##BITS##_fetch_sub(volatile T * a, T v, int) { hsim_yield(const_cast<T *>(a), 1); return __atomic_fetch_sub(a, v, __ATOMIC_SEQ_CST); } \
-  T __tsan_atomic##BITS##_fetch_and(volatile T * a, T v, int) { hsim_yield(const_cast<T *>(a), 1); return __atomic_fetch_and(a, v, __ATOMIC_SEQ_CST); } \
-  T __tsan_atomic##BITS##_fetch_or(volatile T * a, T v, int) { hsim_yield(const_cast<T *>(a), 1); return __atomic_fetch_or(a, v, __ATOMIC_SEQ_CST); } \
-  T __tsan_atomic##BITS##_fetch_xor(volatile T * a, T v, int) { hsim_yield(const_cast<T *>(a), 1); return __atomic_fetch_xor(a, v, __ATOMIC_SEQ_CST); } \
-  T __tsan_atomic##BITS##_fetch_nand(volatile T * a, T v, int) { hsim_yield(const_cast<T *>(a), 1); return __atomic_fetch_nand(a, v, __ATOMIC_SEQ_CST); } \
+  T __tsan_atomic##BITS##_load(const volatile T * a, int) { hsim_yield(const_cast<const T *>(a), 2); return __atomic_load_n(a, __ATOMIC_SEQ_CST); } \
+  void __tsan_atomic##BITS##_store(volatile T * a, T v, int) { hsim_yield(const_cast<T *>(a), 3); __atomic_store_n(a, v, __ATOMIC_SEQ_CST); } \
+  T __tsan_atomic##BITS##_exchange(volatile T * a, T v, int) { hsim_yield(const_cast<T *>(a), 3); return __atomic_exchange_n(a, v, __ATOMIC_SEQ_CST); } \
+  T __tsan_atomic##BITS##_fetch_add(volatile T * a, T v, int) { hsim_yield(const_cast<T *>(a), 3); return __atomic_fetch_add(a, v, __ATOMIC_SEQ_CST); } \
+  T __tsan_atomic##BITS##_fetch_sub(volatile T * a, T v, int) { hsim_yield(const_cast<T *>(a), 3); return __atomic_fetch_sub(a, v, __ATOMIC_SEQ_CST); } \
+  T __tsan_atomic##BITS##_fetch_and(volatile T * a, T v, int) { hsim_yield(const_cast<T *>(a), 3); return __atomic_fetch_and(a, v, __ATOMIC_SEQ_CST); } \
+  T __tsan_atomic##BITS##_fetch_or(volatile T * a, T v, int) { hsim_yield(const_cast<T *>(a), 3); return __atomic_fetch_or(a, v, __ATOMIC_SEQ_CST); } \
+  T __tsan_atomic##BITS##_fetch_xor(volatile T * a, T v, int) { hsim_yield(const_cast<T *>(a), 3); return __atomic_fetch_xor(a, v, __ATOMIC_SEQ_CST); } \
+  T __tsan_atomic##BITS##_fetch_nand(volatile T * a, T v, int) { hsim_yield(const_cast<T *>(a), 3); return __atomic_fetch_nand(a, v, __ATOMIC_SEQ_CST); } \
   int __tsan_atomic##BITS##_compare_exchange_strong(volatile T * a, T * c, T v, int, int) \
-    { hsim_yield(const_cast<T *>(a), 1); return __atomic_compare_exchange_n(a, c, v, false, __ATOMIC_SEQ_CST, __ATOMIC_SEQ_CST); } \
+    { hsim_yield(const_cast<T *>(a), 3); return __atomic_compare_exchange_n(a, c, v, false, __ATOMIC_SEQ_CST, __ATOMIC_SEQ_CST); } \
   int __tsan_atomic##BITS##_compare_exchange_weak(volatile T * a, T * c, T v, int, int) \
-    { hsim_yield(const_cast<T *>(a), 1); return __atomic_compare_exchange_n(a, c, v, false, __ATOMIC_SEQ_CST, __ATOMIC_SEQ_CST); } \
+    { hsim_yield(const_cast<T *>(a), 3); return __atomic_compare_exchange_n(a, c, v, false, __ATOMIC_SEQ_CST, __ATOMIC_SEQ_CST); } \
   T __tsan_atomic##BITS##_compare_exchange_val(volatile T * a, T c, T v, int, int) \
-    { hsim_yield(const_cast<T *>(a), 1); __atomic_compare_exchange_n(a, &c, v, false, __ATOMIC_SEQ_CST, __ATOMIC_SEQ_CST); return c; }
+    { hsim_yield(const_cast<T *>(a), 3); __atomic_compare_exchange_n(a, &c, v, false, __ATOMIC_SEQ_CST, __ATOMIC_SEQ_CST); return c; }
 HSIM_ATOMIC(8, uint8_t) HSIM_ATOMIC(16, uint16_t) HSIM_ATOMIC(32, uint32_t) HSIM_ATOMIC(64, uint64_t)
 void __tsan_atomic_thread_fence(int) { hsim_yield(reinterpret_cast<const void *>(uintptr_t(1)), 1); }
 void __tsan_atomic_signal_fence(int) {}
